@@ -31,7 +31,7 @@ ENCODINGS = ['latin_1', 'cp500', 'cp037', 'ascii', 'cp1252']
 
 @st.composite
 def bounded_message(draw, config, codec):
-    msg = draw(gen_iso.messages(config, codec, exact=True, pds_mode='keys'))
+    msg = draw(gen_iso.messages(config, codec, exact=True, pds_mode='keys', pds_big=draw(st.sampled_from([True, False, False, False]))))
     while len(refcodec.encode(config, codec, False, msg)) > 6000:
         # construction, not rejection: drop the longest element until the record fits
         k = max((k for k in msg if k != 'MTI'), key=lambda k: len(msg[k]) if hasattr(msg[k], '__len__') else 0)
